@@ -492,3 +492,30 @@ Proof.
     destruct (mint user0); [injection H; auto|discriminate].
   - destruct (crc_runtime_token local rt aca user); try discriminate. destruct (mint user0); discriminate.
 Qed.
+
+(* ---------- repeated / empty api_token values, and a failing database query ---------- *)
+(* every api_token value of the query string counts as a token, whatever precedes it (an empty value too) *)
+Theorem query_tokens_all_count r v : In v (values "api_token" (l_query r)) -> In v (load_tokens r).
+Proof. intro H. unfold load_tokens. rewrite !in_app_iff. right. left. exact H. Qed.
+
+(* hence a request with any api_token parameter in its query string is never forwarded with one *)
+Theorem query_token_never_forwarded db r remote w :
+  values "api_token" (l_query r) <> [] -> remote_request db r remote = LFwd w -> values "api_token" (l_query w) = [].
+Proof.
+  intros Hq Hw. destruct (load_tokens r) as [|t0 rest] eqn:E.
+  - exfalso. destruct (values "api_token" (l_query r)) as [|v vs] eqn:Ev; [apply Hq; reflexivity|].
+    assert (Hin : In v (load_tokens r)) by (apply query_tokens_all_count; rewrite Ev; left; reflexivity).
+    rewrite E in Hin. destruct Hin.
+  - destruct (wire_leak_confined db r remote w t0 rest Hw E) as (_ & H & _). exact H.
+Qed.
+
+(* a database query that fails is not "token unknown here": nothing is forwarded *)
+Theorem db_error_forwards_nothing db r remote t0 rest :
+  load_tokens r = t0 :: rest ->
+  (salt_token t0 remote = ErrObsolete \/ salt_token t0 remote = ErrFormat) -> db t0 = DbError ->
+  legacy db r remote = LErr /\ remote_request db r remote = LErr.
+Proof.
+  intros Ht Hs Hd. assert (H : legacy db r remote = LErr).
+  { unfold legacy, legacy_k. rewrite Ht. fold (salt_token t0 remote). destruct Hs as [-> | ->]; rewrite Hd; reflexivity. }
+  split; [exact H|]. rewrite remote_request_is_salted_request. exact H.
+Qed.
